@@ -1,4 +1,10 @@
-"""Per-property and per-suite configuration of ./check."""
+"""Per-property and per-suite configuration of ./check.
+
+SUITES and PROPS are assembled from this file and every checklib/conf_*.py
+(each defining its own SUITES / PROPS dictionaries)."""
+import glob
+import importlib
+import os
 
 # Axioms from the Coq standard library that a theorem may depend on (none expected).
 AXIOM_ALLOW = set()
@@ -35,3 +41,10 @@ PROPS = {
         ],
     },
 }
+
+
+for _p in sorted(glob.glob(os.path.join(os.path.dirname(__file__), "conf_*.py"))):
+    _m = importlib.import_module("checklib." + os.path.basename(_p)[:-3])
+    SUITES.update(getattr(_m, "SUITES", {}))
+    PROPS.update(getattr(_m, "PROPS", {}))
+    AXIOM_ALLOW.update(getattr(_m, "AXIOM_ALLOW", set()))
